@@ -400,70 +400,92 @@ func (c *ctx) renderFunc(name string, ft *ast.FuncType, body *ast.BlockStmt, sb 
 	fmt.Fprintf(sb, "def %s %s%s : %s := Id.run do\n%s\n", name, params, extra, rt, bsb.String())
 }
 
-func (c *ctx) genFuncs() {
-	var sb strings.Builder
-	sb.WriteString("import IceModel.Model.Varint\nimport IceModel.Gen.Consts\n")
+func (c *ctx) funcsHeader(sb *strings.Builder) {
+	sb.WriteString("import IceModel.Model.Varint\nimport IceModel.Gen.Consts\nimport IceModel.Gen.Prelude\n")
 	sb.WriteString("set_option linter.unusedVariables false\nnamespace Ice.Gen\nopen Ice.Model (Res)\n\n")
-	sb.WriteString("def w64 (x : Nat) : Nat := x % 2 ^ 64\ndef w32 (x : Nat) : Nat := x % 2 ^ 32\ndef w16 (x : Nat) : Nat := x % 2 ^ 16\ndef w8 (x : Nat) : Nat := x % 2 ^ 8\n\n")
-	// order: callees first
-	order := []string{"under32Bits", "encodeFreqHasLocs", "decodeFreqHasLocs", "fSTValEncode1Hit", "fSTValDecode1Hit", "getChunkSize"}
-	for _, n := range order {
-		fd := c.funcs[n]
-		if fd == nil {
-			c.failf("function %s not found", n)
-			continue
+}
+
+// genFuncs writes one file per function group, so that a change to one function only breaks the
+// bridges (and properties) that depend on it.  A group whose function leaves the translatable
+// subset is not written at all; the reason goes to Gen/ERRORS.txt.
+func (c *ctx) genFuncs() {
+	c.write("Prelude.lean", "namespace Ice.Gen\n\ndef w64 (x : Nat) : Nat := x % 2 ^ 64\ndef w32 (x : Nat) : Nat := x % 2 ^ 32\ndef w16 (x : Nat) : Nat := x % 2 ^ 16\ndef w8 (x : Nat) : Nat := x % 2 ^ 8\n\nend Ice.Gen\n")
+	group := func(file string, names []string, extra func(sb *strings.Builder)) {
+		before := len(c.errs)
+		var sb strings.Builder
+		c.funcsHeader(&sb)
+		for _, n := range names {
+			fd := c.funcs[n]
+			if fd == nil {
+				c.failf("function %s not found", n)
+				continue
+			}
+			c.renderFunc(n, fd.Type, fd.Body, &sb)
 		}
-		c.renderFunc(n, fd.Type, fd.Body, &sb)
-	}
-	// the 1-hit branch test of PostingsList.read
-	if fd := c.funcs["PostingsList.read"]; fd != nil {
-		found := false
-		ast.Inspect(fd.Body, func(n ast.Node) bool {
-			ifs, ok := n.(*ast.IfStmt)
-			if !ok || found {
-				return true
-			}
-			if strings.Contains(types.ExprString(ifs.Cond), "fSTValEncodingMask") {
-				t := &ftr{c: c, pset: map[string]bool{}}
-				e := t.ex(ifs.Cond)
-				if t.fail != "" {
-					c.failf("1-hit test in PostingsList.read: %s", t.fail)
-				}
-				ps := ""
-				for _, p := range t.params {
-					ps += fmt.Sprintf(" (%s : Nat)", p)
-				}
-				fmt.Fprintf(&sb, "/-- the branch condition of PostingsList.read -/\ndef read_is1Hit%s : Bool := %s\n\n", ps, e)
-				found = true
-			}
-			return true
-		})
-		if !found {
-			c.failf("1-hit test not found in PostingsList.read")
+		if extra != nil {
+			extra(&sb)
 		}
-	} else {
-		c.failf("PostingsList.read not found")
+		sb.WriteString("end Ice.Gen\n")
+		if len(c.errs) > before {
+			c.soft = append(c.soft, fmt.Sprintf("%s not generated: %s", file, strings.Join(c.errs[before:], "; ")))
+			c.errs = c.errs[:before]
+			return
+		}
+		c.write(file, sb.String())
 	}
-	// the use1HitEncoding closure of finishTerm
-	if fd := c.funcs["finishTerm"]; fd != nil {
-		found := false
-		ast.Inspect(fd.Body, func(n ast.Node) bool {
-			as, ok := n.(*ast.AssignStmt)
-			if !ok || found || len(as.Lhs) != 1 || len(as.Rhs) != 1 {
-				return true
-			}
-			if id, ok := as.Lhs[0].(*ast.Ident); ok && id.Name == "use1HitEncoding" {
-				if fl, ok := as.Rhs[0].(*ast.FuncLit); ok {
-					c.renderFunc("use1HitEncoding", fl.Type, fl.Body, &sb)
+	group("FuncsChunk.lean", []string{"getChunkSize"}, nil)
+	group("FuncsFreq.lean", []string{"encodeFreqHasLocs", "decodeFreqHasLocs"}, nil)
+	group("Funcs1Hit.lean", []string{"under32Bits", "fSTValEncode1Hit", "fSTValDecode1Hit"}, func(sb *strings.Builder) {
+		// the 1-hit branch test of PostingsList.read
+		if fd := c.funcs["PostingsList.read"]; fd != nil {
+			found := false
+			ast.Inspect(fd.Body, func(n ast.Node) bool {
+				ifs, ok := n.(*ast.IfStmt)
+				if !ok || found {
+					return true
+				}
+				if strings.Contains(types.ExprString(ifs.Cond), "fSTValEncodingMask") {
+					t := &ftr{c: c, pset: map[string]bool{}}
+					e := t.ex(ifs.Cond)
+					if t.fail != "" {
+						c.failf("1-hit test in PostingsList.read: %s", t.fail)
+					}
+					ps := ""
+					for _, p := range t.params {
+						ps += fmt.Sprintf(" (%s : Nat)", p)
+					}
+					fmt.Fprintf(sb, "/-- the branch condition of PostingsList.read -/\ndef read_is1Hit%s : Bool := %s\n\n", ps, e)
 					found = true
 				}
+				return true
+			})
+			if !found {
+				c.failf("1-hit test not found in PostingsList.read")
 			}
-			return true
-		})
-		if !found {
-			c.failf("use1HitEncoding closure not found in finishTerm")
+		} else {
+			c.failf("PostingsList.read not found")
 		}
-	}
-	sb.WriteString("end Ice.Gen\n")
-	c.write("Funcs.lean", sb.String())
+		// the use1HitEncoding closure of finishTerm
+		if fd := c.funcs["finishTerm"]; fd != nil {
+			found := false
+			ast.Inspect(fd.Body, func(n ast.Node) bool {
+				as, ok := n.(*ast.AssignStmt)
+				if !ok || found || len(as.Lhs) != 1 || len(as.Rhs) != 1 {
+					return true
+				}
+				if id, ok := as.Lhs[0].(*ast.Ident); ok && id.Name == "use1HitEncoding" {
+					if fl, ok := as.Rhs[0].(*ast.FuncLit); ok {
+						c.renderFunc("use1HitEncoding", fl.Type, fl.Body, sb)
+						found = true
+					}
+				}
+				return true
+			})
+			if !found {
+				c.failf("use1HitEncoding closure not found in finishTerm")
+			}
+		} else {
+			c.failf("finishTerm not found")
+		}
+	})
 }
